@@ -21,6 +21,8 @@ from . import core, shapes
 from .core import Rng, Stats
 
 _CHILD = {}
+# per-run budgets of the schedule dimension (set by run() from the tier)
+_SCHED = {"threads_s": 10.0, "preempt_cases": 36, "per_kind_max": 4, "per_kind": {}}
 
 
 def run_in_dash_o_child(pid, case):
@@ -48,8 +50,127 @@ def run_in_dash_o_child(pid, case):
     return ans["io"]
 
 
+def run_in_threads(prop, cases, nthreads=6, rounds=200, budget_s=2.5):
+    """run the implementation side of the cases concurrently: every case is first run on its own (the reference
+    observation), then `rounds` times together with the others in `nthreads` threads of this interpreter that are
+    started together, the interpreter switching between them as often as it can.  Code that is deterministic and safe
+    to call from several threads returns the same data every time; the first observation that differs from the
+    sequential one is what is handed on (and then fails the comparison with the model / the oracle)."""
+    import copy
+    import threading
+
+    def observe(c):
+        try:
+            return shapes.run_with_history(prop.run_impl, c)
+        except Exception as e:  # noqa
+            return {"runner_exception": f"{type(e).__name__}: {e}"}
+
+    def key(o):
+        try:
+            return json.dumps(o, sort_keys=True, default=str)
+        except Exception:  # noqa
+            return repr(o)
+    outs = [observe(c) for c in cases]
+    keys = [key(o) for o in outs]
+    differing = {}
+    nthreads = max(2, min(nthreads, len(cases)))
+    old = sys.getswitchinterval()
+    sys.setswitchinterval(1e-6)
+    try:
+        t_end = time.time() + budget_s
+        for rnd in range(rounds):
+            if rnd >= 2 and time.time() > t_end:
+                break
+            barrier = threading.Barrier(nthreads)
+
+            def work(t, rnd=rnd, barrier=barrier):
+                try:
+                    barrier.wait(timeout=30)
+                except Exception:  # noqa
+                    pass
+                # every thread goes through ALL the cases, each starting somewhere else
+                n = len(cases)
+                start = (t * n) // nthreads
+                idx = [(start + j) % n for j in range(n)]
+                if (rnd + t) % 2:
+                    idx.reverse()
+                for i in idx:
+                    if len(differing) >= 20:
+                        break
+                    if t % 2:
+                        # every other thread works on look-alikes (same shapes, other numbers): a value that leaks
+                        # from one thread into another is then visible
+                        shapes.run_decoy(prop.run_impl, cases[i])
+                        continue
+                    o = observe(copy.deepcopy(cases[i]))
+                    if i not in differing and key(o) != keys[i]:
+                        differing[i] = o
+            ths = [threading.Thread(target=work, args=(t,), daemon=True) for t in range(nthreads)]
+            for th in ths:
+                th.start()
+            for th in ths:
+                th.join(timeout=600)
+            if differing:
+                break
+    finally:
+        sys.setswitchinterval(old)
+    for i, o in differing.items():
+        if isinstance(o, dict) and isinstance(outs[i], dict):
+            o = dict(o)
+            o["_differs_from_sequential_run"] = True
+        outs[i] = o
+    return outs
+
+
+def run_preempted_case(prop, c, k=24):
+    """the systematic schedule dimension (harness/preempt.py): the case is run alone, then again and again with a
+    look-alike call run by another thread at a chosen line of the library; both must keep returning what they return alone"""
+    import copy
+    from . import preempt
+
+    def observe(cc):
+        try:
+            return shapes.run_with_history(prop.run_impl, cc)
+        except Exception as e:  # noqa
+            return {"runner_exception": f"{type(e).__name__}: {e}"}
+
+    def key(o):
+        try:
+            return json.dumps(clean(o), sort_keys=True, default=str)
+        except Exception:  # noqa
+            return repr(o)
+
+    def fn_b():
+        return shapes.run_decoy(prop.run_impl, c)
+    ref_a = observe(c)
+    ref_b = fn_b()
+    firsts = []
+    _, n = preempt.count_lines(lambda: observe(copy.deepcopy(c)), firsts)
+    ps = [c["preempt_at"]] if c.get("preempt_at") else preempt.positions(n, k, case_key(clean(c)), firsts)
+    for p in ps:
+        out_a, fired = preempt.run_preempted(lambda: observe(copy.deepcopy(c)), fn_b, p)
+        if not fired:
+            continue
+        if key(out_a) != key(ref_a):
+            c["preempt_at"] = p
+            if isinstance(out_a, dict):
+                out_a = dict(out_a)
+                out_a["_schedule"] = (f"with another thread running a look-alike call (same shapes, other numbers) while this one "
+                                      f"is held at library line #{p} of {n}, the call returns something else than it does alone")
+            return out_a
+        out_b = fn_b()
+        if key(out_b) != key(ref_b):
+            c["preempt_at"] = p
+            return {"runner_exception": f"schedule: after this call was preempted at library line #{p} of {n} by a look-alike "
+                                        f"call (same shapes, other numbers), the look-alike call - alone again - returns something "
+                                        f"else than before: per-call data outlives the call"}
+    return ref_a
+
+
 def run_one(prop, c, stats=None):
     """the implementation side of one case, in the layout / history / interpreter the case names"""
+    if isinstance(c, dict) and c.get("hist") == "preempt":
+        return run_preempted_case(prop, c)
     if isinstance(c, dict) and c.get("hist") == "dashO":
         io = run_in_dash_o_child(prop.ID, c)
         if io is not None:
@@ -80,12 +201,35 @@ def evaluate(prop, cases, stats):
     """run implementation, model and oracle on the cases.
     returns (records, disagreements, oracle_failures)"""
     core.repo_on_path()
-    impl_outs = []
+    impl_outs = [None] * len(cases)
+    threaded = [i for i, c in enumerate(cases) if isinstance(c, dict) and c.get("hist") == "threads"][:150]
     for c in cases:
+        # the systematic sweep costs some dozens of runs per case: a budget of cases per run, the rest runs plainly
+        if isinstance(c, dict) and c.get("hist") == "preempt" and not c.get("preempt_at"):
+            kind = str(c.get("kind") or c.get("strategy") or c.get("cls") or "-")
+            used = _SCHED.setdefault("per_kind", {})
+            if _SCHED["preempt_cases"] <= 0 or used.get(kind, 0) >= _SCHED.get("per_kind_max", 4):
+                c["hist"] = "none"       # spread over the kinds of cases a check has
+            else:
+                _SCHED["preempt_cases"] -= 1
+                used[kind] = used.get(kind, 0) + 1
+    if _SCHED["threads_s"] <= 0:
+        for i in threaded:
+            cases[i]["hist"] = "none"
+        threaded = []
+    for i, c in enumerate(cases):
+        if i in set(threaded) and len(threaded) >= 2:
+            continue
         try:
-            impl_outs.append(run_one(prop, c, stats))
+            impl_outs[i] = run_one(prop, c, stats)
         except Exception as e:   # the implementation behaved in a way the runner cannot even record
-            impl_outs.append({"runner_exception": f"{type(e).__name__}: {e}"})
+            impl_outs[i] = {"runner_exception": f"{type(e).__name__}: {e}"}
+    if len(threaded) >= 2:
+        # the schedule dimension: these cases run at the same time, each in its own thread of this interpreter
+        t_thr = time.time()
+        for i, out in zip(threaded, run_in_threads(prop, [cases[i] for i in threaded], budget_s=min(2.5, _SCHED["threads_s"]))):
+            impl_outs[i] = out
+        _SCHED["threads_s"] -= time.time() - t_thr
     reqs = []
     spans = []
     for c, io in zip(cases, impl_outs):
@@ -112,6 +256,8 @@ def evaluate(prop, cases, stats):
         else:
             try:
                 d = prop.compare(c, io, mo)
+                if isinstance(io, dict) and io.get("_schedule") and not d:
+                    d = "schedule: " + io["_schedule"]
             except Exception as e:  # noqa
                 d = f"comparison with the model failed on the implementation's output: {type(e).__name__}: {e}"
             try:
@@ -178,6 +324,8 @@ def run(pid, tier, seed, args, t0):
     prop = load_prop(pid)
     core.repo_on_path()
     stats = Stats()
+    _SCHED.update({"threads_s": 10.0, "preempt_cases": 36, "per_kind_max": 4, "per_kind": {}} if tier == "quick"
+                  else {"threads_s": 120.0, "preempt_cases": 600, "per_kind_max": 60, "per_kind": {}})
     known = core.load_known()
     broken = []          # broken obligations / correspondences (strings)
 
@@ -268,7 +416,7 @@ def run(pid, tier, seed, args, t0):
 
     def decorated(gen, r):
         for c in gen:
-            yield shapes.decorate(c, r) if use_shapes else c
+            yield shapes.decorate(c, r, allow_threads=getattr(prop, "THREADS", False)) if use_shapes else c
     stream = itertools.chain(corpus_cases, decorated(prop.cases(rng, tier), shape_rng))
     while True:
         chunk = list(itertools.islice(stream, 5000))
@@ -335,10 +483,24 @@ def run(pid, tier, seed, args, t0):
 
     # --- 7. verdict ----------------------------------------------------------------------------------
     violation = None
+    def shrunk(case, io, msg):
+        """a smaller witness of the same property's violation, if the greedy shrinker finds one"""
+        from . import shrink as shr
+        kn = [k for k in known.get("findings", []) if k.get("property") == pid]
+        try:
+            r = shr.shrink(prop, run_one, clean(case), budget=120 if tier == "quick" else 600,
+                           accept=lambda c, o, m: not any(prop.matches_known(k, {"case": c, "impl": o, "violation": m}) for k in kn))
+        except Exception:  # noqa
+            r = None
+        if not r or not r[3]:
+            return clean(case), clean(io), msg, []
+        return r[0], clean(r[1]), r[2], r[3]
     if new_fails:
         f = min(new_fails, key=lambda r: len(case_key(r["case"])))
-        violation = {"kind": "failing-input", "case": clean(f["case"]), "observed": clean(f["impl"]), "model": f["model"],
-                     "violation": f["violation"], "broken": broken}
+        sc, so, sm, slog = shrunk(f["case"], f["impl"], f["violation"])
+        violation = {"kind": "failing-input", "case": sc, "observed": so, "model": f["model"] if not slog else None,
+                     "violation": sm, "broken": broken, "shrunk_by": slog,
+                     "found_as": clean(f["case"]) if slog else None}
     elif broken:
         # search the implementation for a failing input with the oracle alone
         found = None
@@ -362,8 +524,9 @@ def run(pid, tier, seed, args, t0):
             if found or tried >= budget:
                 break
         if found:
-            violation = {"kind": "failing-input", "case": clean(found["case"]), "observed": clean(found["impl"]),
-                         "violation": found["violation"], "broken": broken}
+            sc, so, sm, slog = shrunk(found["case"], found["impl"], found["violation"])
+            violation = {"kind": "failing-input", "case": sc, "observed": so, "violation": sm, "broken": broken,
+                         "shrunk_by": slog, "found_as": clean(found["case"]) if slog else None}
         else:
             violation = {"kind": "no-failing-input-found", "broken": broken,
                          "first_disagreement": (clean(dis_new[0]) if dis_new else None),
